@@ -10,8 +10,9 @@ TRUSTED = [
     "proved (Lemmas/*C06.lean, abstract algebra over Mathlib): see Props/C06.lean; the theorems are about the mathematical schemes and "
     "the byte-level padding codecs of Spec/Cp.lean / Model/Cp.lean, not about the C text",
     "class C (compared with the specification on the presented lines only): every cp_*/mpc_* function as a whole; the code-shaped models "
-    "of Model/Cp.lean (cp_rsa_enc with the modelled DRBG, cp_rsa_dec incl. CRT and the three padding removers, cp_rabin_dec root selection, "
-    "cp_phpe_dec CRT/plain, mpc_sss_key) are tied to the C functions by the model column of the correspondence only; Benaloh, "
+    "of Model/Cp.lean (cp_rsa_enc with the modelled DRBG, cp_rsa_dec incl. CRT and the three padding removers - each proved equal to the "
+    "byte-level decoder of the standard -, cp_rabin_dec root selection, cp_phpe_dec CRT/plain, mpc_sss_key) are tied to the C functions by "
+    "the model column of the correspondence only; Benaloh, "
     "Damgard-Jurik, subgroup Paillier, ECIES/ECDH/ECMQV/Pedersen, triples and RSA-PSI have no separate model (model column = implementation)",
     "'decryption rejects bad input' is decided by the specification's decision procedure on each presented (crafted or mutated) "
     "ciphertext plus the 'unpad accepts only the documented layout' theorems; it is not a theorem about the C code",
@@ -253,10 +254,9 @@ def rabin_section(ctx, exe, bits, q):
         lines.append("rabin_dec %d %s" % (k, hexs((1).to_bytes(k, "big"))))
         lines.append("rabin_dec %d %s" % (k, hexs(p.to_bytes(k, "big"))))
         lines.append("rabin_dec %d %s" % (k, hexs(rng.bytes(7))))
-        if bits == 512 and ctx.hang_budget > 0:
-            # the all-zero ciphertext (a square root of 0 passes the redundancy test): one instance per run, it costs a watchdog timeout
-            ctx.hang_budget -= 1
-            lines.append("rabin_dec %d %s" % (k, hexs(b"\x00" * k)))
+        # ciphertexts congruent to 0: the root 0 passes the redundancy test and must fail the marker test
+        lines.append("rabin_dec %d %s" % (k, hexs(b"\x00" * k)))
+        lines.append("rabin_dec %d %s" % (k, hexs(n.to_bytes(k, "big"))))
         for _ in range(3 if q else 30):
             lines.append("rabin_dec %d %s" % (k, hexs((rng.bits(8 * k) % n).to_bytes(k, "big"))))
     return lines
@@ -513,8 +513,9 @@ def ec_lines(ctx, cv, q):
         out.append("ecies %s %x %d %d %s %d %02x" % (s, d, need, need, m, pos, rng.choice([1, 0x80, 1 + rng.below(255)])))
     for tl in ([need - 1, need - 16, 48, 33, 32] if q else list(range(32, need))):
         out.append("ecies %s %x %d %d %s t %d" % (s, d, need, need, m, tl))
-    # shorter than the tag: one instance per curve (the implementation's behaviour on these is a known finding)
-    out.append("ecies %s %x %d %d %s t %d" % (s, d, need, need, m, rng.choice([0, 1, 16, 31])))
+    # shorter than the tag: cannot be a ciphertext
+    for tl in ([0, 1, 31] if q else range(0, 32)):
+        out.append("ecies %s %x %d %d %s t %d" % (s, d, need, need, m, tl))
     # decryption of presented values: wrong recipient key, wrong R
     R = cv.mul(cv.g, rng.bits(256) % n or 1)
     out.append("ecies_dec %x %s 64 %s" % (d, ptok(R), hexs(rng.bytes(64))))
@@ -612,7 +613,6 @@ def int_stream(ctx, cfg, q, scale):
 def streams(ctx, scale=1):
     q = ctx.tier == "quick"
     res = []
-    ctx.hang_budget = 1
     for cfg in (["base", "cp-pkcs1", "cp-basic"] + ([] if q else ["cp-2048"])):
         res.append(int_stream(ctx, cfg, q, scale))
     exe = _exe(ctx, "base")
@@ -655,28 +655,6 @@ def matches_finding(f, r):
     pred = f.get("pred")
     v, g, op = r["verdict"], r["got"], r["line"].split(" ")[0]
     tags = v.rsplit("] ", 1)[-1].split(",") if v.startswith("FAIL") else []
-    if pred == "pkcs1_short_ps":
-        return op == "rsa_dec" and "rsa.pkcs1.short-ps" in tags and not g.startswith("err")
-    if pred == "oaep_top_digit_zero":
-        return op in ("rsa_dec", "rsa_enc") and "rsa.oaep.top-digit-zero" in tags and g.endswith("err")
-    if pred == "rsa_key_shorter_than_padding":
-        return op == "rsa_enc" and "rsa.k<overhead" in tags and not g.startswith("err")
-    if pred == "rabin_zero_ciphertext_hang":
-        return op in ("rabin_dec", "rabin_enc") and "rabin.c=0" in tags and g.startswith("CRASH")
-    if pred == "bdpe_enc_accepts_t":
-        return op == "bdpe_enc" and "bdpe.m=t" in tags and not g.startswith("err")
-    if pred == "ghpe_s_ge_3":
-        return op in ("ghpe_enc", "ghpe_add", "ghpe_dec") and any(t.startswith("ghpe.s=") and int(t[7:]) >= 3 for t in tags) and not g.startswith("CRASH")
-    if pred == "ecies_shorter_than_tag":
-        return op in ("ecies", "ecies_dec") and ("ecies.len<tag" in tags or "ecies.truncated" in tags) and g.startswith("CRASH")
-    if pred == "rsa_gen_noninvertible_e":
-        return op == "rsa_param" and "rc=0" in g and "e*d = 1 mod lcm" in v
-    if pred == "rabin_reject_writes_output":
-        return op in ("rabin_dec", "rabin_enc") and g.endswith("err OUT-MODIFIED") and ("spec=[err]" in v or "m=err]" in v)
-    if pred == "pbpsi_singleton":
-        return op == "pbpsi" and "psi.m=1" in tags and g.startswith("len=0")
-    if pred == "pcdel_ver_accepts_dishonest":
-        return op == "pcdel" and "pcdel.dishonest" in tags and g.startswith("ver=1 eq=0 unity=1")
     if pred == "ecdh_x_leading_zero":
         return op in ("ecdh", "ecdh_key", "ecmqv") and ("ecdh.x-leading-zero" in tags or "ecmqv.x-leading-zero" in tags) and "err" not in g
     return False
